@@ -331,6 +331,17 @@ let seqenc_line line =
      | M.RPanic _ -> "panic")
   | _ -> "bad"
 
+(* seqsection <nseq> <src-hex> : decode a section (mode byte 0xA8), write it again from the decoded distributions and
+   sequences; prints whether the side conditions of the section theorem hold and the rewritten bytes *)
+let seqsection_line line =
+  match List.filter (fun x -> x <> "") (split_on ' ' line) with
+  | [nseq; src] ->
+    (match M.decode_rewrite_section (z_of_string nseq) (unhex src) with
+     | M.ROk (h, again) -> Printf.sprintf "ok %s %s" (if h then "1" else "0") (hex again)
+     | M.RErr _ -> "err"
+     | M.RPanic _ -> "panic")
+  | _ -> "bad"
+
 (* ---- Huffman literal stream: hufstream <c,n c,n ...|-> <data-hex> ; hufdec <encoded-hex> ---- *)
 let hufstream_line line =
   match List.filter (fun x -> x <> "") (split_on ' ' line) with
@@ -371,6 +382,7 @@ let () =
     | "frame" -> frame_line
     | "io" -> io_line
     | "seqenc" -> seqenc_line
+    | "seqsection" -> seqsection_line
     | "hufstream" -> hufstream_line
     | "hufdec" -> hufdec_line
     | "fsedesc" -> fsedesc_line
